@@ -208,6 +208,29 @@ func main() {
 			decodeTree(o, "decode.long-sequence", t, rep%2 == 0, []byte("q"), r.Bytes(r.Intn(3)))
 		}
 	}
+	// one SHALLOW compound with more entries than the decoder's nesting limit (10 000), every entry a list or
+	// array of fixed-width scalars: whatever a target skips or captures entry by entry must leave the decoder's
+	// depth accounting balanced - a wide document is not a deep one
+	for rep := 0; rep < o.N(1, 2); rep++ {
+		wide := &c01x.Tree{Kind: c01x.Compound}
+		eids := []byte{c01x.Byte, c01x.Short, c01x.Int, c01x.Long, c01x.Float, c01x.Double}
+		for i := 0; i < 10050+rep*7; i++ {
+			e := eids[i%len(eids)]
+			l := &c01x.Tree{Kind: c01x.List, Eid: e}
+			for j := 0; j < 1+i%3; j++ {
+				x := &c01x.Tree{Kind: e, I: int64(int8(i + j))}
+				if e == c01x.Float {
+					x.Bits = uint64(0x3f800000 + i)
+				} else if e == c01x.Double {
+					x.Bits = 0x3ff0000000000000 + uint64(i)
+				}
+				l.List = append(l.List, x)
+			}
+			wide.Keys = append(wide.Keys, []byte(fmt.Sprintf("k%d", i)))
+			wide.List = append(wide.List, l)
+		}
+		decodeTree(o, "decode.wide-compound", wide, rep%2 == 0, []byte("w"), r.Bytes(rep))
+	}
 	// empty lists with every element id, nested empties
 	for eid := byte(0); eid <= 12; eid++ {
 		t := &c01x.Tree{Kind: c01x.List, Eid: eid}
@@ -259,10 +282,10 @@ func main() {
 	// element must be refused or survive - never be truncated
 	iv := func(ty string, v int64) *c01x.GV { return &c01x.GV{K: 'i', Ty: ty, I: v} }
 	mixes := [][]*c01x.GV{
-		{iv("i32", 1), iv("i64", 1<<40)}, {iv("i32", 1), iv("i64", 7)}, {iv("i64", 1 << 40), iv("i32", 1)},
-		{iv("i8", 1), iv("i16", 300)}, {iv("i8", 1), iv("i32", 1 << 20)}, {iv("i32", -1), iv("i32", 2), iv("i64", -(1 << 35))},
+		{iv("i32", 1), iv("i64", 1<<40)}, {iv("i32", 1), iv("i64", 7)}, {iv("i64", 1<<40), iv("i32", 1)},
+		{iv("i8", 1), iv("i16", 300)}, {iv("i8", 1), iv("i32", 1<<20)}, {iv("i32", -1), iv("i32", 2), iv("i64", -(1 << 35))},
 		{iv("i16", 5), iv("i8", 1)}, {iv("i32", 1), {K: 'n'}}, {iv("i64", 1), {K: 's', S: []byte("x")}},
-		{iv("int", 1 << 40), iv("i32", 3)}, {iv("i32", 3), iv("int", 1<<40)},
+		{iv("int", 1<<40), iv("i32", 3)}, {iv("i32", 3), iv("int", 1<<40)},
 	}
 	for i, mx := range mixes {
 		encodeValue(o, "encode.mixed-widths", &c01x.GV{K: '[', Ty: "any", L: mx}, i%2 == 0, []byte("m"))
